@@ -11,3 +11,21 @@ if [ ! -x "$BUILD/geneffects" ] || [ "$HERE/tools/geneffects/main.go" -nt "$BUIL
 fi
 "$BUILD/geneffects" "$REPO" > "$BUILD/Effects.v.new"
 if ! cmp -s "$BUILD/Effects.v.new" "$HERE/coq/Gen/Effects.v"; then cp "$BUILD/Effects.v.new" "$HERE/coq/Gen/Effects.v"; fi
+
+# ---- EBU STL tables (C05): tools/gentables built against the repository with the verif hooks
+GT="$BUILD/gentables-src"
+mkdir -p "$GT"
+cp "$HERE/tools/gentables/main.go" "$GT/main.go"
+cat > "$GT/go.mod" <<MOD
+module gentables
+
+go 1.21
+
+require github.com/asticode/go-astisub v0.0.0
+
+replace github.com/asticode/go-astisub => $REPO
+MOD
+cp "$REPO/go.sum" "$GT/go.sum"
+(cd "$GT" && go build -tags verif -o "$BUILD/gentables" .)
+"$BUILD/gentables" > "$BUILD/StlTables.v.new"
+if ! cmp -s "$BUILD/StlTables.v.new" "$HERE/coq/Gen/StlTables.v"; then cp "$BUILD/StlTables.v.new" "$HERE/coq/Gen/StlTables.v"; fi
